@@ -63,6 +63,7 @@ func (in *Interp) resetPath(prefix []int) {
 	in.nondetCount = map[string]int{}
 	in.concNondets = map[string]uint64{}
 	in.fpBits = map[*Term]*Term{}
+	in.fpBitsByKey = map[string]*Term{}
 	in.depth = 0
 	in.curFrame = nil
 	in.Effects = nil
